@@ -1165,3 +1165,152 @@ package queue
 //@   requires s != nil
 //@   modifies s.maxDepth, s.dropPolicy
 //@   ensures [C12:the_depth_limit_option_sets_the_limit_the_store_enforces] (maxDepth >= 0 ==> s.maxDepth == maxDepth) && (maxDepth < 0 ==> s.maxDepth == old(s.maxDepth)) && (trim(dropPolicy) != "" ==> s.dropPolicy == lower(trim(dropPolicy))) && (trim(dropPolicy) == "" ==> s.dropPolicy == old(s.dropPolicy))
+
+// ---- Postgres backend: lease fencing is decided in Go (withLease), so it is proved, not pinned ----
+//@ spec
+//@ ghost var pgSettleCalls int
+
+//@ extern local:fn@queue.(*PostgresStore).withLease(ctx, tx, itemID, leaseUntil) (err)
+//@   modifies txPending, pgSettleCalls
+//@   ensures pgSettleCalls == old(pgSettleCalls) + 1 && txPending >= old(txPending) && (err == nil ==> txPending >= old(txPending) + 1)
+
+//@ func (*PostgresStore).requeueLeaseTx
+//@   requires tx != nil
+//@   modifies txPending
+//@   calls database/sql.(*Tx).ExecContext requires [C04:an_expired_lease_is_released_to_the_queue_as_of_now] arg2 == "\nUPDATE queue_items\nSET state = $1, lease_id = NULL, lease_until = NULL, next_run_at = $2, dead_reason = NULL\nWHERE id = $3\n" && nvarargs == 3 && vararg0 == "queued" && vararg1 == now && vararg2 == itemID
+//@   ensures txPending >= old(txPending) && (result == nil ==> txPending == old(txPending) + 1)
+
+//@ func (*PostgresStore).withLease$1
+//@   requires tx != nil
+//@   modifies txOpen, txPending
+//@   ensures (committed ==> txOpen == old(txOpen) && txPending == old(txPending)) && (!committed ==> !txOpen && txPending == 0)
+
+//@ func (*PostgresStore).withLease
+//@   requires s != nil && s.db != nil && !txOpen && txPending == 0
+//@   modifies durable, txOpen, txPending, pgSettleCalls
+//@   calls database/sql.(*Tx).QueryRowContext requires [C04:the_lease_is_looked_up_by_its_id_and_locked_inside_the_transaction] txOpen && arg2 == "\nSELECT id, state, lease_until\nFROM queue_items\nWHERE lease_id = $1\nLIMIT 1\nFOR UPDATE\n" && nvarargs == 1 && vararg0 == trim(leaseID) && trim(leaseID) != ""
+//@   calls local:fn* requires [C04:settlement_runs_only_for_the_current_unexpired_lease_of_the_row_found] txOpen && state == "leased" && arg2 == itemID && (leaseUntil.Valid ==> now < leaseUntil.Time && arg3 == leaseUntil.Time) && (!leaseUntil.Valid ==> arg3 == now) && pgSettleCalls == old(pgSettleCalls)
+//@   calls requeueLeaseTx requires [C04:only_an_expired_lease_is_released] txOpen && state == "leased" && leaseUntil.Valid && now >= leaseUntil.Time && arg3 == itemID && arg4 == now && pgSettleCalls == old(pgSettleCalls)
+//@   ensures [C04:success_means_settled_once_and_committed] result == nil ==> pgSettleCalls == old(pgSettleCalls) + 1 && durable > old(durable)
+//@   ensures [C04:a_blank_lease_id_is_not_found] trim(leaseID) == "" ==> result == ErrLeaseNotFound && durable == old(durable) && pgSettleCalls == old(pgSettleCalls)
+//@   ensures [C04:a_failed_settlement_commits_nothing] result != nil && result != ErrLeaseExpired ==> durable == old(durable)
+//@   ensures [C01:no_transaction_left_open] !txOpen && txPending == 0
+
+//@ func (*PostgresStore).now
+//@   trusted
+//@ func (*PostgresStore).observeStoreOperation
+//@   trusted
+
+// the settlement closures: each issues exactly its statement, keyed by the row id withLease resolved under the row lock and
+// guarded by state = 'leased' (the lease id/expiry fence was decided by withLease inside the same transaction)
+//@ func (*PostgresStore).Ack$1$1
+//@   requires tx != nil && s != nil
+//@   modifies txPending
+//@   calls database/sql.(*Tx).ExecContext@1 requires [C04:retained_ack_marks_the_leased_row_delivered] s.deliveredRetentionMaxAge > 0 && arg2 == "\nUPDATE queue_items\nSET state = $1, lease_id = NULL, lease_until = NULL, next_run_at = $2, dead_reason = NULL\nWHERE id = $3\n  AND state = $4\n" && nvarargs == 4 && vararg0 == "delivered" && vararg1 == now && vararg2 == itemID && vararg3 == "leased"
+//@   calls database/sql.(*Tx).ExecContext@2 requires [C04:ack_deletes_the_leased_row] s.deliveredRetentionMaxAge <= 0 && arg2 == "\nDELETE FROM queue_items\nWHERE id = $1\n  AND state = $2\n" && nvarargs == 2 && vararg0 == itemID && vararg1 == "leased"
+//@   ensures [C04:one_statement_inside_the_transaction] txPending >= old(txPending) && (result == nil ==> txPending == old(txPending) + 1)
+//@ func (*PostgresStore).Nack$1$1
+//@   requires tx != nil
+//@   modifies txPending
+//@   calls database/sql.(*Tx).ExecContext requires [C05:nack_requeues_the_leased_row_not_before_now_plus_delay] arg2 == "\nUPDATE queue_items\nSET state = $1, lease_id = NULL, lease_until = NULL, next_run_at = $2, dead_reason = NULL\nWHERE id = $3\n  AND state = $4\n" && nvarargs == 4 && vararg0 == "queued" && vararg1 == now + delay && vararg2 == itemID && vararg3 == "leased"
+//@   ensures [C04:one_statement_inside_the_transaction] txPending >= old(txPending) && (result == nil ==> txPending == old(txPending) + 1)
+//@ func (*PostgresStore).Extend$1$1
+//@   requires tx != nil
+//@   modifies txPending
+//@   calls database/sql.(*Tx).ExecContext requires [C03:extension_moves_lease_until_and_next_run_at_together] arg2 == "\nUPDATE queue_items\nSET lease_until = $1, next_run_at = $1\nWHERE id = $2\n  AND state = $3\n" && nvarargs == 3 && vararg0 == leaseUntil + extendBy && vararg1 == itemID && vararg2 == "leased"
+//@   ensures [C04:one_statement_inside_the_transaction] txPending >= old(txPending) && (result == nil ==> txPending == old(txPending) + 1)
+//@ func (*PostgresStore).MarkDead$1$1
+//@   requires tx != nil
+//@   modifies txPending
+//@   calls database/sql.(*Tx).ExecContext requires [C04:dead_letter_marks_the_leased_row_dead_with_the_reason] arg2 == "\nUPDATE queue_items\nSET state = $1, lease_id = NULL, lease_until = NULL, next_run_at = $2, dead_reason = $3\nWHERE id = $4\n  AND state = $5\n" && nvarargs == 5 && vararg0 == "dead" && vararg1 == now && vararg2 == trim(reason) && vararg3 == itemID && vararg4 == "leased"
+//@   ensures [C04:one_statement_inside_the_transaction] txPending >= old(txPending) && (result == nil ==> txPending == old(txPending) + 1)
+
+// the operation bodies: the lease id goes to withLease as given, with the store clock; nil only after withLease committed
+//@ func (*PostgresStore).Ack$1
+//@   requires s != nil && s.db != nil && !txOpen && txPending == 0
+//@   modifies durable, txOpen, txPending, pgSettleCalls
+//@   calls withLease requires [C04:the_presented_lease_id_is_fenced_as_of_the_store_clock] arg1 == leaseID
+//@   ensures [C01:nil_implies_committed] result == nil ==> durable > old(durable) && pgSettleCalls == old(pgSettleCalls) + 1
+//@   ensures [C01:no_transaction_left_open] !txOpen && txPending == 0
+//@ func (*PostgresStore).Nack$1
+//@   requires s != nil && s.db != nil && !txOpen && txPending == 0
+//@   modifies durable, txOpen, txPending, pgSettleCalls, delay
+//@   calls withLease requires [C04:the_presented_lease_id_is_fenced_as_of_the_store_clock] arg1 == leaseID
+//@   calls withLease requires [C05:a_negative_delay_counts_as_none] local(delay) >= 0 && (delay >= 0 ==> local(delay) == delay)
+//@   ensures [C01:nil_implies_committed] result == nil ==> durable > old(durable) && pgSettleCalls == old(pgSettleCalls) + 1
+//@   ensures [C01:no_transaction_left_open] !txOpen && txPending == 0
+//@ func (*PostgresStore).Extend$1
+//@   requires s != nil && s.db != nil && !txOpen && txPending == 0
+//@   modifies durable, txOpen, txPending, pgSettleCalls
+//@   calls withLease requires [C04:the_presented_lease_id_is_fenced_as_of_the_store_clock] arg1 == leaseID && extendBy > 0
+//@   ensures [C01:nil_implies_committed] result == nil && extendBy > 0 ==> durable > old(durable) && pgSettleCalls == old(pgSettleCalls) + 1
+//@   ensures [C04:a_non_positive_extension_changes_nothing] extendBy <= 0 ==> result == nil && durable == old(durable) && pgSettleCalls == old(pgSettleCalls)
+//@   ensures [C01:no_transaction_left_open] !txOpen && txPending == 0
+//@ func (*PostgresStore).MarkDead$1
+//@   requires s != nil && s.db != nil && !txOpen && txPending == 0
+//@   modifies durable, txOpen, txPending, pgSettleCalls
+//@   calls withLease requires [C04:the_presented_lease_id_is_fenced_as_of_the_store_clock] arg1 == leaseID
+//@   ensures [C01:nil_implies_committed] result == nil ==> durable > old(durable) && pgSettleCalls == old(pgSettleCalls) + 1
+//@   ensures [C01:no_transaction_left_open] !txOpen && txPending == 0
+
+// the metrics wrapper returns exactly what the operation body returned
+//@ spec
+//@ ghost var pgOpResult error
+//@ extern local:fn@queue.(*PostgresStore).runStoreOperation() (err)
+//@   modifies *
+//@   ensures pgOpResult == err
+//@ func (*PostgresStore).runStoreOperation
+//@   requires s != nil
+//@   modifies *
+//@   ensures [C04:the_wrapper_reports_the_operation_result_unchanged] result == pgOpResult
+
+// ---- Postgres admission (C12): pgDepth is the number of queued+leased rows (ASSUMED to be what activeCount reads),
+// pgEvicted counts rows deleted by dropOldestQueued. Statement text is opaque and pinned.
+//@ spec
+//@ ghost var pgDepth int
+//@ ghost var pgEvicted int
+//@ ghost var pgPruned int
+//@ func encodeStringMapJSON
+//@   trusted
+//@ func nullIfEmpty
+//@   trusted
+//@ func nullTime
+//@   trusted
+//@ func mapPostgresInsertError
+//@   ensures [C12:an_insert_error_stays_an_error] (err == nil) == (result == nil)
+//@ func (*PostgresStore).activeCountTx
+//@   requires s != nil && tx != nil
+//@   modifies pgDepth
+//@   calls database/sql.(*Tx).QueryRowContext requires [C12:the_depth_the_limit_is_checked_against_counts_queued_and_leased] arg2 == "\nSELECT COUNT(*)\nFROM queue_items\nWHERE state = $1 OR state = $2\n" && nvarargs == 2 && vararg0 == "queued" && vararg1 == "leased"
+//@   sets pgDepth := ite(result1 == nil, result0, old(pgDepth))
+//@ func (*PostgresStore).dropOldestQueuedTx
+//@   requires s != nil && tx != nil
+//@   modifies txPending, pgDepth, pgEvicted
+//@   calls database/sql.(*Tx).ExecContext requires [C12:evicts_the_single_oldest_queued_row_never_a_leased_one] arg2 == "\nDELETE FROM queue_items\nWHERE id = (\n  SELECT id\n  FROM queue_items\n  WHERE state = $1\n  ORDER BY received_at ASC, id ASC\n  LIMIT 1\n)\n" && nvarargs == 1 && vararg0 == "queued"
+//@   sets pgDepth := ite(result1 == nil && result0, old(pgDepth) - 1, old(pgDepth))
+//@   sets pgEvicted := ite(result1 == nil && result0, old(pgEvicted) + 1, old(pgEvicted))
+//@   ensures [C12:an_eviction_stays_inside_the_transaction] txPending >= old(txPending)
+//@ func (*PostgresStore).maybePrune
+//@   trusted
+//@   modifies durable, syncFullSet, pgPruned
+//@   ensures durable >= old(durable) && pgPruned - old(pgPruned) == durable - old(durable)
+
+//@ func (*PostgresStore).Enqueue$1$1
+//@   requires tx != nil
+//@   modifies txOpen, txPending
+//@   ensures (committed ==> txOpen == old(txOpen) && txPending == old(txPending)) && (!committed ==> !txOpen && txPending == 0)
+
+// pgEvicted counts eviction statements executed; an eviction is undone unless the transaction it ran in commits, so
+// "a refused enqueue evicts nothing" is: every error path ends the transaction without COMMIT (durable unchanged).
+//@ func (*PostgresStore).Enqueue$1
+//@   requires s != nil ==> !txOpen && txPending == 0
+//@   modifies durable, txOpen, txPending, syncFullSet, pgDepth, pgEvicted, pgPruned, env
+//@   calls dropOldestQueuedTx requires [C12:evicts_only_under_drop_oldest_when_full_inside_the_transaction] txOpen && s.dropPolicy == "drop_oldest" && s.maxDepth > 0 && pgDepth >= s.maxDepth && pgEvicted == old(pgEvicted)
+//@   calls database/sql.(*Tx).ExecContext requires [C12:stores_only_when_there_is_room_or_one_was_evicted] txOpen && (pgDepth < s.maxDepth || pgEvicted == old(pgEvicted) + 1)
+//@   calls database/sql.(*DB).ExecContext requires [C12:the_unchecked_insert_runs_only_without_a_depth_limit] s.maxDepth <= 0
+//@   calls activeCountTx requires [C12:the_depth_is_read_inside_the_transaction_that_inserts] txOpen && txPending == 0
+//@   ensures [C12:full_queue_under_reject_refuses] s != nil && s.db != nil && s.maxDepth > 0 && s.dropPolicy != "drop_oldest" && pgDepth >= s.maxDepth && txOpen != old(txOpen) ==> result != nil
+//@   ensures [C12:at_most_one_eviction_per_message_stored] pgEvicted <= old(pgEvicted) + 1
+//@   ensures [C12:a_refused_enqueue_commits_nothing_so_its_eviction_is_rolled_back] result != nil ==> durable == old(durable) + (pgPruned - old(pgPruned))
+//@   ensures [C01:nil_implies_committed] result == nil ==> durable > old(durable)
+//@   ensures [C01:no_transaction_left_open] s != nil ==> !txOpen && txPending == 0
